@@ -23,6 +23,7 @@
 #include <AIToolbox/MDP/Policies/QSoftmaxPolicy.hpp>
 #include <AIToolbox/MDP/Policies/EpsilonPolicy.hpp>
 #include <AIToolbox/MDP/Policies/RandomPolicy.hpp>
+#include <AIToolbox/MDP/Policies/BanditPolicyAdaptor.hpp>
 #include <AIToolbox/MDP/Policies/WoLFPolicy.hpp>
 #include <AIToolbox/MDP/Policies/PGAAPPPolicy.hpp>
 #include <AIToolbox/Factored/Bandit/Policies/QGreedyPolicy.hpp>
@@ -273,10 +274,17 @@ static void emit_table(Rng & rng, size_t S, size_t n, int ns) {
     reseed();
     AI::Matrix2D m(S, n);
     for (size_t s = 0; s < S; ++s) { auto r = dyadicRowLocal(rng, n); for (size_t a = 0; a < n; ++a) m(s, a) = r[a]; }
-    int which = (int)rng.below(4);
+    int which = (int)rng.below(6);
     std::unique_ptr<M::PolicyInterface> holder; std::unique_ptr<M::Policy> src;
     const char * comp;
-    if (which == 0) { holder.reset(new M::Policy(m)); comp = "MDP::Policy"; }
+    std::printf("#stat table_ctor_%d 1\n", which);
+    if (which == 4) {   // rarely used overload: copy through the generic base interface (S*A getActionProbability calls), non-square S x A
+        src.reset(new M::Policy(m)); holder.reset(new M::Policy(static_cast<const M::PolicyInterface::Base &>(*src))); comp = "MDP::Policy(copy-base)"; }
+    else if (which == 5) {  // greedy policy of a ValueFunction: one-hot rows
+        M::ValueFunction vf; vf.values = AI::Vector::Zero(S); vf.actions.resize(S);
+        m.setZero(); for (size_t s = 0; s < S; ++s) { vf.actions[s] = rng.below(n); m(s, vf.actions[s]) = 1.0; }
+        holder.reset(new M::Policy(S, n, vf)); comp = "MDP::Policy(valuefunction)"; }
+    else if (which == 0) { holder.reset(new M::Policy(m)); comp = "MDP::Policy"; }
     else if (which == 1) { holder.reset(new M::PolicyWrapper(m)); comp = "MDP::PolicyWrapper"; }
     else if (which == 2) { src.reset(new M::Policy(m)); holder.reset(new M::Policy(static_cast<const M::PolicyInterface &>(*src))); comp = "MDP::Policy(copy)"; }
     else { holder.reset(new M::Policy(S, n)); m.fill(1.0 / n); comp = "MDP::Policy(uniform)"; }
@@ -286,6 +294,42 @@ static void emit_table(Rng & rng, size_t S, size_t n, int ns) {
         for (size_t a = 0; a < n; ++a) l << p.getActionProbability(s, a);
         putRow(l, rowOf(pol, s)); l << ns;
         for (int i = 0; i < ns; ++i) { l << peekU(eng(p)); l << p.sampleAction(s); }
+        l.emit();
+    }
+}
+
+// a matrix that is NOT a set of distributions must be rejected by the checked constructor (isProbability): if it is accepted the
+// policy exposes it, and the row clauses fail on the implementation's own table
+static void emit_table_invalid(Rng & rng, size_t S, size_t n) {
+    reseed();
+    AI::Matrix2D m(S, n);
+    for (size_t s = 0; s < S; ++s) { auto r = dyadicRowLocal(rng, n); for (size_t a = 0; a < n; ++a) m(s, a) = r[a]; }
+    size_t s = rng.below(S), a = rng.below(n); int kind = (int)rng.below(4);
+    if (kind == 0) m.row(s) *= 0.5;                                   // sums to 1/2
+    else if (kind == 1) m(s, a) += 0.25;                              // sums to 5/4
+    else if (kind == 2 && n > 1) { m(s, a) -= 1.25; m(s, (a + 1) % n) += 1.25; }   // sums to one with a negative entry
+    else m(s, a) = m(s, a) + std::ldexp(1.0, -16);                    // off by 1.5e-5 (15 tolerances)
+    std::printf("#stat table_invalid_kind%d 1\n", kind);
+    try {
+        M::Policy p(m); auto pol = p.getPolicy();
+        for (size_t r = 0; r < S; ++r) {
+            Line l; l << "C09" << "table" << "MDP::Policy(invalid-accepted)" << n; putRow(l, rowOf(m, r)); l << "|";
+            for (size_t x = 0; x < n; ++x) l << p.getActionProbability(r, x);
+            putRow(l, rowOf(pol, r)); l << 0; l.emit();
+        }
+    } catch (const std::invalid_argument &) { std::printf("#stat table_invalid_rejected 1\n"); }
+}
+
+// MDP::BanditPolicyAdaptor over value-based bandit policies: every state shows the bandit policy (getPolicy: transpose + replicate)
+static void emit_adaptor(const std::vector<double> & q, size_t S, int ns) {
+    reseed();
+    auto qv = toVec(q); size_t n = q.size();
+    M::BanditPolicyAdaptor<B::QGreedyPolicy> p(S, qv); auto pol = p.getPolicy();
+    for (size_t s = 0; s < S; ++s) {
+        Line l; l << "C09" << "greedy" << "MDP::BanditPolicyAdaptor<QGreedyPolicy>" << n; putRow(l, q); l << "|";
+        for (size_t a = 0; a < n; ++a) l << p.getActionProbability(s, a);
+        putRow(l, rowOf(pol, s)); l << ns;
+        for (int i = 0; i < ns; ++i) { putW(l, eng(p.getBanditPolicy())); l << p.sampleAction(s); }
         l.emit();
     }
 }
@@ -505,6 +549,7 @@ static void emit_sr(Rng & rng, size_t n, unsigned budget, int k, double base = 0
     l << "|" << nk1; l.tok(out.os.str()); l.emit();
 }
 
+static const double kEpsF[] = {0.0, 1.0, 0.5, 0.125, 0.1, 0.3};
 // ---- factored bandit wrappers: joint action in range; greedy: optimal by brute force
 static void emit_factored(Rng & rng) {
     reseed();
@@ -528,6 +573,23 @@ static void emit_factored(Rng & rng) {
     };
     FB::QGreedyPolicy<> g(A, fm);
     line("Factored::Bandit::QGreedyPolicy", g.sampleAction(), true);
+    // per-joint-action queries over the whole joint space: P(a) = (1-eps) [a = greedy] + eps / |space|  (eps = 0: deterministic, 1: uniform)
+    auto fprob = [&](const char * comp, const FB::PolicyInterface & pol, double eps, const F::Action & gact, int ns) {
+        Line l; l << "C09" << "fprob" << comp << m; for (auto a : A) l << a; l << eps; for (auto a : gact) l << a;
+        size_t np = 1; for (auto a : A) np *= a; l << np;
+        F::PartialFactorsEnumerator e(A);
+        while (e.isValid()) { F::Action a = (*e).second; for (auto x : a) l << x; l << pol.getActionProbability(a); e.advance(); }
+        l << ns; for (int i = 0; i < ns; ++i) { auto a = pol.sampleAction(); for (auto x : a) l << x; }
+        l.emit();
+    };
+    {
+        auto gact = g.sampleAction();
+        fprob("Factored::Bandit::QGreedyPolicy", g, 0.0, gact, 1);
+        FB::RandomPolicy rq(A); fprob("Factored::Bandit::RandomPolicy", rq, 1.0, gact, 3);
+        double ee = kEpsF[rng.below(6)]; FB::EpsilonPolicy eq(g, ee); fprob("Factored::Bandit::EpsilonPolicy", eq, ee, gact, 3);
+        FB::SingleActionPolicy sq(A); F::Action u0(m); for (size_t i = 0; i < m; ++i) u0[i] = rng.below(A[i]); sq.updateAction(u0);
+        fprob("Factored::Bandit::SingleActionPolicy", sq, 0.0, u0, 1);
+    }
     FB::RandomPolicy rp(A);
     for (int i = 0; i < 3; ++i) line("Factored::Bandit::RandomPolicy", rp.sampleAction(), false);
     FB::EpsilonPolicy ep(g, 0.5);
@@ -543,9 +605,13 @@ static void emit_factored(Rng & rng) {
 
 // ---- TopTwoThompson / T3C selection kernels: the inner ThompsonSamplingPolicy is private; a shadow constructed with the same
 // seed (the 2nd value the Seeder hands out after reseed()) answers exactly what the inner one will answer.
+static void recommend_line(const char * comp, const B::Experience & exp, size_t act) {
+    Line l; l << "C09" << "recommend" << comp << (size_t)exp.getA(); putRow(l, vecOf(exp.getRewardMatrix())); l << "|" << act; l.emit();
+}
 static void emit_toptwo(const B::Experience & exp, double beta, int reps) {
     reseed();
     B::TopTwoThompsonSamplingPolicy p(exp, beta); size_t n = p.getA();
+    recommend_line("TopTwoThompsonSamplingPolicy", exp, p.recommendAction());
     AI::Seeder::setRootSeed(g_root); (void)AI::Seeder::getSeed();
     B::ThompsonSamplingPolicy shadow(exp);
     for (int i = 0; i < reps; ++i) {
@@ -564,6 +630,7 @@ static void emit_toptwo(const B::Experience & exp, double beta, int reps) {
 static void emit_t3c(const B::Experience & exp, double beta, double var, int reps) {
     reseed();
     B::T3CPolicy p(exp, beta, var); size_t n = p.getA();
+    recommend_line("T3CPolicy", exp, p.recommendAction());
     AI::Seeder::setRootSeed(g_root); (void)AI::Seeder::getSeed();
     B::ThompsonSamplingPolicy shadow(exp);
     for (int i = 0; i < reps; ++i) {
@@ -757,7 +824,9 @@ void verif::verif_case(Rng & rng, long idx, const std::string & tier) {
               else { B::RandomPolicy g(n); emit_eps_bandit("Bandit::EpsilonPolicy", g, e, ns); }
               break; }
     case 5: { g_who = "eps_mdp"; M::QFunction Q(S, n); for (size_t s = 0; s < S; ++s) fillRow(rng, Q, s); emit_eps_mdp(Q, kEps[rng.below(6)], ns); break; }
-    case 6: emit_table(rng, S, n, ns); break;
+    case 6: emit_table(rng, S, n, ns); emit_table_invalid(rng, S, n);
+            { int E; std::string kind; auto q = genQAny(rng, n, E, kind); statQ("adaptor", kind); emit_adaptor(q, S, 2); }
+            break;
     case 7: emit_random(n, S, ns); break;
     case 8: { double a = kAB[rng.below(7)], b = kAB[rng.below(7)]; if (rng.coin(1, 12)) a = 1.5; if (rng.coin(1, 12)) b = -0.25;
               size_t nn = n < 2 ? 2 : n; emit_lrp(rng, nn, a, b, (int)rng.range(0, th ? 200 : 40), ns); break; }
